@@ -28,6 +28,8 @@ generated; any groups), QUIC or not, any GREASE group:
   range only (`material_depends_on_its_range`). This is the functional form of "fresh": with independent
   random bytes per connection nothing repeats; uniqueness across connections itself is a property of the
   entropy source and is measured (`c18_fresh`).
+* `fingerprint_regenerates` — the spec the Fingerprinter makes of a captured hello drops the captured key of
+  every non-GREASE share (classical or hybrid): all of them are generated anew per connection.
 * `material_chunking_irrelevant` — all of it is read with `io.ReadFull`: over a reader that serves the stream
   in arbitrary chunks (one byte per Read, short reads, empty reads) the material is the consecutive slices
   of the concatenated stream and exactly the model's number of bytes is consumed; `single_read_witness`
@@ -262,6 +264,25 @@ theorem material_depends_on_its_range (s1 s2 : Wire.Bytes) (off len : Nat)
     (h : ∀ i, off ≤ i → i < off + len → s1[i]? = s2[i]?) : slice s1 off len = slice s2 off len :=
   slice_congr s1 s2 off len h
 
+/-- **A fingerprinted hello replays no key share.** Whatever key shares the captured ClientHello carried —
+classical, hybrid, groups the library cannot generate — the spec made of it holds no captured key for any
+non-GREASE entry: each such entry is one `ApplyPreset` generates (so `share_sizes`, `retained_all` and
+`material_from_rand` apply to it: fresh key, right size, private key retained), or one for which
+`ApplyPreset` fails; it never goes on the wire with the captured bytes. -/
+theorem fingerprint_regenerates (wire : List (Nat × Nat)) :
+    (fingerprintShares wire).length = wire.length ∧
+    ∀ s ∈ fingerprintShares wire, Grease.isGrease s.group = false → generated s = true ∧ s.dataLen = 0 := by
+  refine ⟨by simp [fingerprintShares], ?_⟩
+  intro s hs hg
+  simp only [fingerprintShares, List.mem_map] at hs
+  obtain ⟨⟨g, n⟩, _, rfl⟩ := hs
+  by_cases hgr : Grease.isGrease g = true
+  · simp only [hgr, if_true] at hg
+    exact absurd hg (by decide)
+  · have hgf : Grease.isGrease g = false := by simpa using hgr
+    simp only [hgf, Bool.false_eq_true, if_false]
+    simp [generated, hgf]
+
 /-- **Chunking is irrelevant.** Every piece of material is read with `io.ReadFull`; over a reader that hands
 the stream out in arbitrary chunks (short reads, one byte per `Read`, empty reads) the logical reads of an
 application are exactly the consecutive slices of the *concatenated* stream with the model's lengths: the
@@ -302,6 +323,8 @@ example : ∃ out1 out2, applyPreset false 0x3a3a false none firefoxSpec = some 
   ⟨_, _, rfl, rfl, by decide⟩
 /-- a group the library cannot generate makes `ApplyPreset` fail (no hello at all). -/
 example : applyPreset false 0x3a3a false none [⟨30, 0⟩] = none := by decide
+/-- a captured Chrome-131 hello (GREASE, X25519MLKEM768 1216 bytes, X25519): the fingerprinted spec regenerates both. -/
+example : fingerprintShares [(0x3a3a, 1), (4588, 1216), (29, 32)] = [⟨0x0a0a, 1⟩, ⟨4588, 0⟩, ⟨29, 0⟩] := by decide
 /-- hypotheses of `material_chunking_irrelevant`: the same six bytes served as 1+1+0+4 and as 3+3. -/
 example : readAll [[1], [2], [], [3, 4, 5, 6]] [2, 3] = some [[1, 2], [3, 4, 5]] ∧
     readAll [[1, 2, 3], [4, 5, 6]] [2, 3] = some [[1, 2], [3, 4, 5]] := by decide
